@@ -15,10 +15,12 @@ from vlib import Infra, log
 
 # ---------------------------------------------------------------------------------------------------
 # shapes.  item: ("N",k[,mode]) native effect k | ("F",mode) native call built to fail | ("E",j) EVM effect
+#          ("P",mode) native call whose action PANICS midway (aborts the transaction)
 #          ("S",[items],mode) sub-frame | "R" REVERT | "I" INVALID ; mode "p" propagate (default) / "c" catch
 # ---------------------------------------------------------------------------------------------------
 N1, N2, N3, E1, E2, R, I = ("N", 1), ("N", 2), ("N", 3), ("E", 1), ("E", 2), "R", "I"
 Fc, Fp = ("F", "c"), ("F", "p")
+Pc, Pp = ("P", "c"), ("P", "p")
 
 
 def S(items, mode="p"):
@@ -55,7 +57,22 @@ SHAPES_DEEP = {  # depth 3
     "t11": [S([S([N1]), S([N2, R], "c")], "c"), N3],
     "t12": [N1, S([S([N2], "c"), Fp], "c"), E1],
 }
+# shapes with a native call whose action panics after partial work (fail = "panic")
+SHAPES_PANIC_QUICK = {  # depth <= 2
+    "p01": [Pp],                                   # direct call: nothing catches
+    "p02": [N1, Pc, N2],                           # the caller "catches": an abort is not a failure one can catch
+    "p03": [N1, S([N2, Pp], "c"), N3],             # panic in a caught sub-frame after kept work
+    "p04": [S([Fp, Pp], "c"), N1],                 # NOT reached (an earlier call fails its frame): ordinary execution
+    "p05": [E1, S([N1, R], "c"), S([Pc, E2, R], "c"), N2],  # after a caught revert, inside a frame that would revert anyway
+}
+SHAPES_PANIC_DEEP = {  # depth 3
+    "q01": [N1, S([S([N2, Pc], "c"), N3], "c")],
+    "q02": [S([S([R], "c"), N1]), S([S([Pp]), N2], "c"), N3],
+    "q03": [S([N1, S([I], "c")], "c"), E1, S([S([N2], "c"), Pp, R], "c")],
+}
+SHAPES_PANIC = dict(SHAPES_PANIC_QUICK, **SHAPES_PANIC_DEEP)
 SHAPES = dict(SHAPES_QUICK, **SHAPES_DEEP)
+SHAPES.update(SHAPES_PANIC)
 
 STAKING = ["delegateV2", "undelegateV2", "redelegateV2", "withdraw", "approveShares", "transferShares", "transferFromShares"]
 CROSS = ["crossChain", "bridgeCall", "cancelSendToExternal", "increaseBridgeFee", "executeClaim"]
@@ -91,20 +108,22 @@ def compile_shape(items):
         steps = []
         for it in items:
             if it == "R":
-                steps.append(dict(t="rev", k=0, mode="propagate", fail=False, id=0))
+                steps.append(dict(t="rev", k=0, mode="propagate", fail="no", id=0))
             elif it == "I":
-                steps.append(dict(t="inv", k=0, mode="propagate", fail=False, id=0))
+                steps.append(dict(t="inv", k=0, mode="propagate", fail="no", id=0))
             elif it[0] == "N":
                 mode = "catch" if len(it) > 2 and it[2] == "c" else "propagate"
-                steps.append(dict(t="nat", k=it[1], mode=mode, fail=False, id=new_id()))
+                steps.append(dict(t="nat", k=it[1], mode=mode, fail="no", id=new_id()))
             elif it[0] == "F":
-                steps.append(dict(t="nat", k=0, mode="catch" if it[1] == "c" else "propagate", fail=True, id=new_id()))
+                steps.append(dict(t="nat", k=0, mode="catch" if it[1] == "c" else "propagate", fail="err", id=new_id()))
+            elif it[0] == "P":
+                steps.append(dict(t="nat", k=0, mode="catch" if it[1] == "c" else "propagate", fail="panic", id=new_id()))
             elif it[0] == "E":
-                steps.append(dict(t="evm", k=it[1], mode="propagate", fail=False, id=new_id()))
+                steps.append(dict(t="evm", k=it[1], mode="propagate", fail="no", id=new_id()))
             elif it[0] == "S":
                 sid = new_id()
                 child = build(it[1], sid)
-                steps.append(dict(t="sub", k=child + 1, mode="catch" if it[2] == "c" else "propagate", fail=False, id=sid))
+                steps.append(dict(t="sub", k=child + 1, mode="catch" if it[2] == "c" else "propagate", fail="no", id=sid))
         frames[idx]["steps"] = steps
         return idx
 
@@ -185,21 +204,28 @@ def emit_cuts(classes):
 RESET = dict(name="Reset", p="none", c=[], res="ok")
 FORMULAS = dict(
     invariants=["C09_NoLeak", "C09_NoSplit"],
-    properties=["C09_AllOrNothing", "C09_NothingWhenFailed", "C09_Status", "C09_InvalidNoEffect"],
-    p_properties=["P_C09_AllOrNothing", "P_C09_NothingWhenFailed", "P_C09_Status", "P_C09_InvalidNoEffect"])
+    properties=["C09_AllOrNothing", "C09_NothingWhenFailed", "C09_Status", "C09_InvalidNoEffect", "C09_AbortNoEffect"],
+    p_properties=["P_C09_AllOrNothing", "P_C09_NothingWhenFailed", "P_C09_Status", "P_C09_InvalidNoEffect", "P_C09_AbortNoEffect"])
 
 Q_SHAPES = sorted(SHAPES_QUICK)
+QP_SHAPES = sorted(SHAPES_PANIC_QUICK)
 T_SHAPES = sorted(SHAPES)
+# the situations every state-changing METHOD is put in by every quick run (the property quantifies over all of
+# them): its effect is the first - and only - native write of a frame the EVM drops (transaction fails / caller
+# catches the revert), its own late failure is caught before a success, and its late failure undoes an earlier success
+CORE_SHAPES = ["d02", "d04", "d10", "d11"]
+SINGLE_METHOD_VARIANTS = sorted(STAKING + CROSS + ["ccfx"])
 TIERS = {
     # tier: (shapes, variants, cut mode)
-    "dev": (["d01", "d04", "d06", "d12"], ["delegateV2", "crossChain"], "sample"),
-    "quick": (Q_SHAPES, None, "sample"),        # variants: quick_variants(seed)
+    "dev": (["d01", "d04", "d06", "d12", "p02", "p04"], ["delegateV2", "crossChain"], "sample"),
+    "quick": (Q_SHAPES + QP_SHAPES, None, "sample"),   # variants: quick_variants(seed); + CORE_SHAPES x every method
     "thorough": (T_SHAPES, sorted(VARIANTS), "all"),
 }
 # quick tier: three fixed method variants - a single-step staking method, the allowance-consuming multi-step
 # staking method (allowance decrement + reward withdrawal + share move in one action), the cross-chain method
 # that pulls an approved ERC-20 through the running EVM, converts and pools it - plus one further staking and
-# one further cross-chain variant rotated by VERIF_SEED (the thorough tier runs all of them)
+# one further cross-chain variant rotated by VERIF_SEED (the thorough tier runs all of them) on all quick shapes
+# (incl. those with a panicking native action); every method on the CORE_SHAPES
 QUICK_FIXED = ["delegateV2", "transferFromShares", "crossChain"]
 QUICK_ROT_STK = ["undelegateV2", "transferShares", "redelegateV2", "withdraw", "approveShares"]
 QUICK_ROT_CC = ["executeClaim", "increaseBridgeFee", "cancelSendToExternal", "bridgeCall", "ccfx"]
@@ -232,9 +258,11 @@ def in_scenario(case):
 
 def tier_cases(tier, seed=1):
     shapes, variants, _ = TIERS[tier]
+    extra = []
     if variants is None:
         variants = quick_variants(seed)
-    return sorted(case_id(s, v) for s in shapes for v in variants)
+        extra = [case_id(s, v) for s in CORE_SHAPES for v in SINGLE_METHOD_VARIANTS]
+    return sorted(set([case_id(s, v) for s in shapes for v in variants] + extra))
 
 
 def consts(ids):
@@ -385,7 +413,9 @@ def run_pass(work, args, binary, tier, ids, name):
 
 
 ASSUMPTIONS = [
-    "call trees are a curated family (14 shapes of depth<=2, 12 of depth 3; <=3 native calls, <=2 EVM effects) x method variants, not all trees",
+    "call trees are a curated family (14 shapes of depth<=2, 12 of depth 3, 5+3 with a native action that panics midway; <=3 native calls, <=2 EVM effects) x method variants, not all trees",
+    "quick tier: all quick shapes x 3 fixed + 2 seed-rotated method variants, and the core shapes (revert after the call, caught revert after the call, caught late failure, late failure after a success) x EVERY method",
+    "the panicking native action is realised by the one reachable with valid state: executeClaim of an observed failed bridge-call result whose refund cannot be converted back because governance disabled the token pair (HandleOutgoingBridgeCallRefund panics after the claim was consumed and the coins were released); the other methods have no reachable panic after partial work",
     "which call frames run out of gas under a given gas limit is MEASURED on the real EVM (frame tracer on a throw-away branch, same message) and given to the model; the model decides what must persist",
     "gas limits tried: around every executed opcode of the ample-gas run (cumulative gas -1, +0, +cost-1); thorough tier: every opcode + bisection between neighbouring limits with different fates; quick: opcodes around each call + every 8th",
     "transactions are executed at keeper level (EvmKeeper.EthereumTx, gas price 0): no fee deduction, so the dump comparison needs to ignore only the sender's account sequence",
